@@ -35,17 +35,20 @@ theorem c09_av1_slices_in_range (d : DSt) (p : Bytes) :
 theorem c09_av1_nopanic (d : DSt) (p : Bytes) : (depUnmarshal d p).1 ≠ .panic :=
   depUnmarshal_ne_panic d p
 
-/-- AV1Packet (fresh per payload or reused) with one frame.AV1 assembler -/
-theorem c09_av1packet (reuse : Bool) (st : PktSt) (buf : Bytes) (ps : List (Option Bytes)) :
+/-- AV1Packet (fresh per payload or reused) with one frame.AV1 assembler; ReadFrames after every
+    successful Unmarshal and, for the payloads flagged so, also after a refused one (on the fields the
+    refused call left in the packet) -/
+theorem c09_av1packet (reuse : Bool) (st : PktSt) (buf : Bytes) (ps : List (Option Bytes × Bool)) :
     Pred.C09Av1.histOk (pktCallsOf reuse st buf ps) = true := by
   induction ps generalizing st buf with
   | nil => simp [pktCallsOf, Pred.C09Av1.histOk]
-  | cons p ps ih =>
+  | cons pa ps ih =>
+    obtain ⟨p, always⟩ := pa
     simp only [Pred.C09Av1.histOk] at ih ⊢
     simp only [pktCallsOf, pktUnmarshalX_eq, readFramesC_eq, List.all_cons, ih, Bool.and_true,
       Pred.C09Av1.callOk]
     have := pktUnmarshal_ne_panic (if reuse = true then st else {}) p
-    cases hr : (pktUnmarshal (if reuse = true then st else {}) p).1 <;>
+    cases hr : (pktUnmarshal (if reuse = true then st else {}) p).1 <;> cases always <;>
       simp_all [Res.coarse, Res.isPanic, Res.isOk]
 
 /-- the index-based models of AV1Packet.Unmarshal / parseBody and frame.AV1.ReadFrames with CHECKED
@@ -55,6 +58,17 @@ theorem c09_av1packet_slices_in_range (p : PktSt) (payload : Option Bytes) (buf 
     pktUnmarshalC p payload = some (pktUnmarshal p payload) ∧
     readFramesC buf z y elems = some (readFrames buf z y elems) :=
   ⟨pktUnmarshalC_eq p payload, readFramesC_eq buf z y elems⟩
+
+/-- non-vacuity of the refused-then-ReadFrames histories: a fresh AV1Packet refuses `80 05 01` (Z = 1,
+    element longer than the packet) and `88 00` (Z with N) but has stored Z = true; ReadFrames on it
+    returns no OBU; a fragment cached before (`50 30 01`) survives such a call and is completed by the
+    next continuation -/
+example :
+    let os := pktCallsOf false {} [] [(some [0x80, 0x05, 0x01], true), (some [0x50, 0x30, 0x01], false),
+      (some [0x88, 0x00], true), (some [0x90, 0x02], true)]
+    os.map (·.res.isOk) = [false, true, false, true] ∧ os.map (·.z) = [true, false, true, true] ∧
+    os.map (·.elems) = [[], [[0x30, 0x01]], [], [[0x02]]] ∧
+    os.map (·.frames) = [.ok [], .ok [], .ok [], .ok [[0x30, 0x01, 0x02]]] := by decide +kernel
 
 /-- non-vacuity: the witness of DESIGN §7 row 11 on the model (the OBU comes out) -/
 example : ((depObsOf {} [some [0x50, 0x30, 0x01, 0x02, 0x03], some [0x90, 0x04, 0x05]]).map (·.res)) =
